@@ -106,7 +106,7 @@ Lemma write_sig_untouched v s x :
   WF p s -> (forall k, In j (tracked_of (rlog (getn s k))) -> dep k j) ->
   x <> j -> ~ dep x j -> getn (write_sig p j v s) x = getn s x.
 Proof.
-  intros W Htr Hxj Hx. unfold write_sig, notify_sig.
+  intros W Htr Hxj Hx. unfold write_sig. destruct (sgone (getn s j)); [reflexivity|]. unfold notify_sig.
   set (s1 := updn j (fun n => set_sval n v) s).
   set (s2 := add_cause j s1).
   assert (H1 : forall k, k <> j -> getn s1 k = getn s k) by (intros k Hk; apply getn_updn_other; auto).
